@@ -151,3 +151,56 @@ package genql
 //@   ensures arity[C18]: len(args) != 2 ==> err != nil
 //@   ensures pair[C18]: len(args) == 2 && args[0] != nil && args[1] != nil ==> err == nil && typeis(result, []string) &&
 //@     | len(result.([]string)) == 2 && result.([]string)[0] == spec.FmtV(args[0]) && result.([]string)[1] == spec.FmtV(args[1])
+
+// ---------------------------------------------------------------------------
+// selector.go: path evaluation (value and frame are the subject of C09/C11; assumed here)
+
+//@ func ExecReader
+//@   trusted : value and frame of path evaluation are C09's and C11's subject; callers rely on this summary
+//@   ensures value[C09]: err == nil ==> result == spec.Read(data, selector)
+//@   modifies locks M|Str|Slice D|Str|Slice
+
+// ---------------------------------------------------------------------------
+// sort.go: ORDER BY
+
+//@ func Compare
+//@   requires idx: 0 <= i && i < len(slice) && 0 <= j && j < len(slice)
+//@   safety[C05]
+//@   errors[C05]
+//@   ensures less[C05]: err == nil && spec.LessOK(elems(slice), off(slice), i, j, elems(orderBy), off(orderBy), len(orderBy)) ==>
+//@     | result == spec.Less(elems(slice), off(slice), i, j, elems(orderBy), off(orderBy), len(orderBy))
+//@   ensures frame[C05,C11]: elems(slice) == old(elems(slice)) && elems(orderBy) == old(elems(orderBy))
+//@   ensures zero[C05,C19]: err != nil ==> !result
+
+//@ func Sort$1
+//@   modifies cell(any) at err
+//@   ensures noop[C05]: !panicking() ==> *err == old(*err)
+
+//@ func Sort$2
+//@   requires idx: 0 <= i && i < len(*slice) && 0 <= j && j < len(*slice)
+//@   safety[C05]
+//@   ensures less[C05]: spec.LessOK(elems(*slice), off(*slice), i, j, elems(*orderBy), off(*orderBy), len(*orderBy)) ==>
+//@     | result == spec.Less(elems(*slice), off(*slice), i, j, elems(*orderBy), off(*orderBy), len(*orderBy))
+
+//@ func Sort
+//@   safety[C05]
+//@   modifies E|Any at slice
+//@   modifies C|Any locks M|Str|Slice D|Str|Slice
+//@   ensures no-keys[C05]: len(orderBy) == 0 ==> err == nil && elems(slice) == old(elems(slice))
+
+//@ func ExecOrderBy
+//@   requires q: query != nil
+//@   safety[C05]
+//@   errors[C05]
+//@   ensures in-place[C05]: err == nil ==> result == current
+//@   ensures no-order[C05]: query.orderByDefinition == nil ==> err == nil && result == current && elems(current) == old(elems(current))
+
+//@ func BuildOrder
+//@   requires q: query != nil
+//@   safety[C05]
+//@   errors[C05,C19]
+//@   loop 0 invariant len[C05]: len(query.orderByDefinition) == old(len(query.orderByDefinition)) + rangeindex + 1
+//@   loop 0 invariant ast[C05]: *orderBy == old(*orderBy) && elems(*orderBy) == old(elems(*orderBy))
+//@   at-call append assert dir[C05]: appended.Value == (ordeorderBy.Direction == sqlparser.AscOrder) && ordeorderBy == (*orderBy)[rangeindex + 1]
+//@   at-call append assert at-end[C05]: target == query.orderByDefinition
+//@   ensures count[C05]: err == nil && orderBy != nil ==> len(query.orderByDefinition) == old(len(query.orderByDefinition)) + len(*orderBy)
